@@ -787,7 +787,7 @@ def run(rep: vlib.Reporter, tier: str, seed: int) -> None:
                     "dtypes with Range/non-Range index, list plain/shuffled keys) x every other framework x {direct, "
                     "ComputeFramework.transform, TransformFrameworkStep.transform, upload/download}; each forward and round trip. "
                     "non-trivial = table with >= 1 row and >= 1 null or special value (distinct by table, pair, variant, mode). "
-                    "value model (T2c): the same tables (quick: the corpus + the first 300 generated), every source framework x one "
+                    "value model (T2c): the same tables (quick: the corpus + the first 220 generated; thorough: + 4000), every source framework x one "
                     "native variant (corpus: all; extension-dtype variants excluded) x both other frameworks, real forward and back "
                     "conversion through TransformFrameworkStep.transform (corpus also through the transformer classes directly), plus "
                     "python-dict tables with one row's keys dropped / added / renamed / reordered (schema check); checked in Coq: "
